@@ -41,6 +41,33 @@ class Stream:
         return v
 
 
+_DIFF_CACHE = {}
+
+
+def decide_mismatch(chk, rule, instance, e, site, what=''):
+    """a decoder asked for another immediate type than the binary format has at that position (ScriptMismatch e).  Two different
+    LEB128 kinds decode some valid encodings to other values: a violation.  A raw byte where a LEB128 immediate stands (or the
+    reverse) is a wrong decoder or a correct single-byte fast path: decided on bytes by sa/bytedecode.py (every instruction translated
+    with the real decoders from its minimal and from a padded encoding, live and dead code).  Returns True when a violation was
+    recorded; otherwise the construct is recorded as undecided (exit 2 unless something else is violated)"""
+    import re
+    m = re.search(r'asked for (\w+) but the (?:next immediate of the instruction is|buffer holds) (\w+)', str(e))
+    leb = ('u32', 'i32', 'u64', 'i64')
+    if m and m.group(1) in leb and m.group(2) in leb:
+        chk.fail(rule, instance, '%s%s - the two LEB128 kinds decode some valid encodings to different values' % (what, e), site)
+        return True
+    if 'diff' not in _DIFF_CACHE:
+        from . import bytedecode
+        _DIFF_CACHE['diff'] = bytedecode.differential(chk.tier)
+    bad, n, ok = _DIFF_CACHE['diff']
+    if bad:
+        chk.fail(rule, instance, '%s%s; translated from bytes: %s' % (what, str(e)[:200], bad[0]), site, witnesses=bad[:5])
+        return True
+    chk.undecide('%s%s - outside the token model of the decoders; translated from bytes, all %d instruction encodings (minimal and padded, '
+                 'live and dead code) give identical results' % (what, str(e)[:200], n))
+    return False
+
+
 def _sb(interp, p):
     """StringBuilder record behind pointer p -> its Text"""
     if isinstance(p, Ptr):
